@@ -36,7 +36,7 @@ func init() {
 			{Name: "advance-no-guard", File: pp, Old: "\t\t\tif p.pos == p.syncPos && p.syncCnt < 10 {\n\t\t\t\tp.syncCnt++\n\t\t\t\treturn\n\t\t\t}", New: "\t\t\tif p.pos == p.syncPos {\n\t\t\t\treturn\n\t\t\t}", Expect: "progress/parser.advance"},
 			{Name: "scope-not-closed-on-path", File: pp, Old: "\tpos := p.expect(token.FOR)\n\tp.openScope()\n\tdefer p.closeScope()\n\n\tvar s1, s2, s3 ast.Stmt", New: "\tpos := p.expect(token.FOR)\n\tp.openScope()\n\n\tvar s1, s2, s3 ast.Stmt", Expect: "scope-pairing/parser.parseForStmt"},
 			{Name: "lambda-without-label-scope", File: pp, Old: "\t\t\tp.openLabelScope()\n\t\t\tbody = p.parseBlockStmt()\n\t\t\tp.closeLabelScope()\n", New: "\t\t\tbody = p.parseBlockStmt()\n", Expect: "closure-label-scope/parser.parseLambdaExpr"},
-			{Name: "tuple-without-End", File: pp, Old: "func (p *tupleExpr) End() token.Pos { return p.closing }\n", New: "", Expect: "nil-embedded-iface/parser.tupleExpr"},
+			{Name: "tuple-without-End", File: pp, Old: "func (p *tupleExpr) End() token.Pos { return p.closing + 1 }\n", New: "", Expect: "nil-embedded-iface/parser.tupleExpr"},
 			{Name: "new-assert-site", File: pp, Old: "\tcall := p.parseCallExpr(\"go\")\n", New: "\tcall := p.parseCallExpr(\"go\")\n\tassert(call != nil, \"nil call\")\n", Expect: "assert-site/parser.parseGoStmt"},
 		},
 	})
